@@ -246,10 +246,18 @@ def run_case(case):
         ntraj = 2
         open_kw = {}
         try:
+            refused2 = False
             if layout in ('single', 'evicted'):
                 ts = TS.create(base_file=base)
                 for t in range(1, ntraj + 1):
-                    ts.add(build(case, t))
+                    if t == 2 and not case.get('fits', True):
+                        # a trajectory with a species the file has no position for: refused, or stored completely
+                        try:
+                            ts.add(build(case, t))
+                        except Exception:
+                            refused2 = True
+                    else:
+                        ts.add(build(case, t))
             elif layout == 'split':
                 ts = TS.create(base_file=base, associated_files=[(assoc, ['vc_codec_b'])])
                 for t in range(1, ntraj + 1):
@@ -302,13 +310,25 @@ def run_case(case):
                     for i in list(c.keys()):
                         c.pop(i, None)
             else:
-                ts.close()
+                try:
+                    ts.close()
+                except Exception:
+                    if not refused2:
+                        raise
+                    return devs   # the refused addition left the session unusable: C10's clause, not judged here
                 ts = None
                 gc.collect()
                 stage = 'reopen'
-                ts = TS.open(base_file=base, **open_kw)
+                try:
+                    ts = TS.open(base_file=base, **open_kw)
+                except Exception:
+                    if not refused2:
+                        raise
+                    return devs
             stage = 'read'
-            if len(ts) != ntraj:
+            if refused2:
+                ntraj = 1   # what the refused addition may have left behind is C10's business, not judged here
+            elif len(ts) != ntraj:
                 devs.append(('store', 'len', f'len() = {len(ts)} after adding {ntraj}'))
             for t in range(1, ntraj + 1):
                 got = ts[t - 1]
